@@ -1,6 +1,7 @@
 import BoltonsVerif.Common
 import BoltonsVerif.C05.Model
 import BoltonsVerif.C05.Accept
+import BoltonsVerif.C05.Env
 /-
 C05 line protocol.  One line = one whole case.
 
@@ -259,9 +260,61 @@ def handleAcc (ws : List String) : String :=
     | _, _, _, _, _, _, _, _, _, _, _ => "bad-op"
   | _ => "bad-op"
 
+/-! ### histories: several saves on the same directory, the world changing in between
+
+  HIST <umask> <dest> <part> <step> ...
+    step   S/<flags>/<perms>/<raises>/<content>/<ok>/<trace>   one save with ITS configuration and observed trace
+           E/c<mode>  E/d  E/p<mode>:<hex>  E/u<umask>          the destination is chmod-ed / deleted / replaced by another
+                                                                writer's file, the process umask changes (`C05.EnvStep`)
+  Output: one half per step joined by ` | `: a save as in protocol 1 (judged by `C05.Accept` with the umask and the
+  destination's permission bits of the state THAT save starts from), an environment step as `env dest=… part=…`. -/
+
+def parseEnvStep? (w : String) : Option EnvStep :=
+  match w.toList with
+  | ['d'] => some .unlinkDest
+  | 'c' :: md => (String.ofList md).toNat?.map EnvStep.chmodDest
+  | 'u' :: um => (String.ofList um).toNat?.map EnvStep.setUmask
+  | 'p' :: rest => match splitOnChar (String.ofList rest) ':' with
+    | [md, hx] => match md.toNat?, bytesOfHex? hx with
+      | some md, some b => some (.putDest md b)
+      | _, _ => none
+    | _ => none
+  | _ => none
+
+def histLoop (e : Nat) : FS → List String → List String → String
+  | _, [], acc => " | ".intercalate acc.reverse
+  | fs, w :: ws, acc =>
+    match splitOnChar w '/' with
+    | ["E", x] => match parseEnvStep? x with
+      | some st =>
+        let fs' := st.apply fs
+        histLoop e fs' ws (s!"env dest={showFile fs' fs'.dir.dest} part={showFile fs' fs'.dir.part}" :: acc)
+      | none => "bad-op"
+    | ["S", flags, perms, raises, content, ok, t] =>
+      match flags.toList.map bit?, (if perms = "-" then some none else perms.toNat?.map some), raises.toList.map bit?,
+            bytesOfHex? content, ok.toList.map bit?, parseTrace? t with
+      | [some ow, some owp, some rm, some txt], some perms, [some raises], some content, [some ok], some t =>
+        let cfg : Cfg := ⟨ow, owp, rm, txt, perms⟩
+        match showHalf cfg raises ok content fs e t with
+        | (h, some fs') => histLoop e fs' ws (h :: acc)
+        | (h, none) => " | ".intercalate (h :: acc).reverse
+      | _, _, _, _, _, _ => "bad-op"
+    | _ => "bad-op"
+
+def handleHist (ws : List String) : String :=
+  match ws with
+  | umask :: dest :: part :: steps =>
+    match umask.toNat?, parseFile? dest, parseFile? part with
+    | some umask, some dest, some part =>
+      let (fs0, e) := mkFS dest part umask
+      histLoop e fs0 steps []
+    | _, _, _ => "bad-op"
+  | _ => "bad-op"
+
 def handle (line : String) : String :=
   match words line with
   | "REF" :: ws => handleRef ws
+  | "HIST" :: ws => handleHist ws
   | ws => handleAcc ws
 
 end C05.Driver
